@@ -18,9 +18,9 @@ def encL (s : Str) : String := encStr (String.ofList s)
 
 def ms (m s : String) : String := "model=" ++ m ++ " spec=" ++ s
 
-/-- spec column of the boolean regex-family functions: only for single-line keys and documented-form patterns -/
+/-- spec column of the boolean regex-family functions: for documented-form patterns (every key) -/
 def specK (toks : Option (List KTok)) (k : Str) : String :=
-  if noNL k then showOpt (fun ts => encBool (denK ts k)) toks else "?"
+  showOpt (fun ts => encBool (denK ts k)) toks
 
 def showMatch : Option (List Str) → String
   | none => "N"
@@ -40,7 +40,7 @@ def handle (fs : List String) : String :=
        | "keymatch3" => ms (showOut encBool (keyMatch3 k p)) (specK (tok3 p) k)
        | "keymatch5" => ms (showOut encBool (keyMatch5 k p)) (specK (tok5 p) (dropQuery k))
        | "keymatch4" =>
-         ms (showOut encBool (keyMatch4 k p)) (if noNL k then showOpt encBool (keyMatch4Spec k p) else "?")
+         ms (showOut encBool (keyMatch4 k p)) (showOpt encBool (keyMatch4Spec k p))
        | "glob" => ms (encBool (glob p k)) (encBool (globSpec p k))
        | "ip" => ms (showOut encBool (ipMatch k p)) (showOpt encBool (ipSpec k p))
        | "remodel" => ms (showOut showMatch (reMatchFull k p)) "?"
@@ -63,8 +63,8 @@ def handle (fs : List String) : String :=
        let p := b.toList
        let v := c.toList
        match op with
-       | "keyget2" => ms (showOut encL (keyGet2 k p v)) (if noNL k then showOpt encL (keyGet2Spec k p v) else "?")
-       | "keyget3" => ms (showOut encL (keyGet3 k p v)) (if noNL k then showOpt encL (keyGet3Spec k p v) else "?")
+       | "keyget2" => ms (showOut encL (keyGet2 k p v)) (showOpt encL (keyGet2Spec k p v))
+       | "keyget3" => ms (showOut encL (keyGet3 k p v)) (showOpt encL (keyGet3Spec k p v))
        | _ => "bad-op"
      | _, _, _ => "bad-op")
   | [op, a] =>
